@@ -49,6 +49,10 @@ type Opts struct {
 	Dir          string // reuse this directory (not cleaned on New); "" => fresh scratch
 	NoServers    bool   // disk layer only
 	Metrics      bool
+	// StockGRPCLimits: the gRPC server keeps grpc-go's default 4 MiB receive
+	// limit, as the real binary does (the harness otherwise raises it so that
+	// its own large requests pass).
+	StockGRPCLimits bool
 }
 
 type Stack struct {
@@ -248,11 +252,11 @@ func New(o Opts) (*Stack, error) {
 
 	// gRPC over bufconn.
 	s.lis = bufconn.Listen(4 << 20)
-	s.grpcSrv = grpc.NewServer(
-		grpc.ChainUnaryInterceptor(s.unaryRecover),
-		grpc.ChainStreamInterceptor(s.streamRecover),
-		grpc.MaxRecvMsgSize(64<<20),
-	)
+	gopts := []grpc.ServerOption{grpc.ChainUnaryInterceptor(s.unaryRecover), grpc.ChainStreamInterceptor(s.streamRecover)}
+	if !o.StockGRPCLimits {
+		gopts = append(gopts, grpc.MaxRecvMsgSize(64<<20))
+	}
+	s.grpcSrv = grpc.NewServer(gopts...)
 	lis, gsrv := s.lis, s.grpcSrv
 	started := make(chan struct{})
 	go func() {
